@@ -84,7 +84,7 @@ def run(ctx, mult=1, seed_shift=0, corpus=True):
             extra.append(g)
     out["oracle_fails"] += extra
     t = time.time()
-    nseeds = 6 if ctx.tier == "thorough" else 1
+    nseeds = 16 if ctx.tier == "thorough" else 1
     f1, r1 = run_miri(ctx, "plain", [base % 1000 + i for i in range(nseeds)])
     f2, r2 = run_miri(ctx, "zst", [base % 1000])
     ctx.log(f"miri runs in {time.time() - t:.1f}s: {r1 + r2}")
